@@ -1,5 +1,6 @@
 import DryocVerif.Model.SecretStream
 import DryocVerif.Proofs.SecretStream
+import DryocVerif.Proofs.Inst
 /-
 C03 — secretstream: push/pull round trip with state lockstep through every rekey branch,
 rejected pulls leave everything untouched, counters never repeat inside a key epoch,
@@ -395,5 +396,112 @@ example : ∃ c s', push toyP toyS 18 [0x41] [0x42] 0 = .ok (c, s') ∧
     pull toyP (runAttempts toyP toyS [⟨[0], 0, c.take 2 ++ zeros 16, [0x42]⟩, ⟨[], 0, [1, 2, 3], []⟩]).1
       [0] 0 c [0x42] = ⟨.ok 1, [0x41], 0, s'⟩ := by
   refine ⟨_, _, rfl, ?_, ?_⟩ <;> decide
+
+/-! ### 11. the instance the native driver runs
+
+`Model.streamPrims` (`DryocVerif/Model/Inst.lean`) is what `Driver/Stream.lean` instantiates the model
+with: the ChaCha20 / HChaCha20 executable specs and dryoc's Poly1305 limb model.  For it the `WF`
+hypothesis is discharged (`Proofs/Inst.lean`); what remains is `StateWF s`, i.e. the array types of the
+Rust `State { k: [u8; 32], nonce: [u8; 12] }` — guaranteed by `init_push` / `init_pull` on a 32-byte key
+and 24-byte header (`initState_wf_concrete`) and kept by every operation.  It cannot be dropped: the
+executable ChaCha20 spec is total on byte lists and yields short blocks for a short key or nonce
+(`Proofs.Inst.streamPrims_not_wf`). -/
+
+section Concrete
+open DryocVerif.Model (streamPrims)
+open DryocVerif.Proofs.Inst (streamPrims_guard_wf)
+open DryocVerif.Proofs.Inst.Stream
+
+/-- `runPush` only ever evaluates the key stream on well-formed states -/
+theorem guard_runPush (P : Prims) (hG : WF (guard P)) (ops : List Op) (s : State) (hs : StateWF s) :
+    runPush (guard P) s ops = runPush P s ops := by
+  induction ops generalizing s with
+  | nil => rfl
+  | cons op ops ih =>
+    cases op with
+    | rekey =>
+      have hr := (state_wf_preserved (guard P) hG s hs).1
+      rw [guard_rekey P s hs] at hr
+      simp only [runPush, guard_rekey P s hs, ih _ hr]
+    | push m ad tag =>
+      have ho := guard_objPush P s hs m ad tag
+      obtain ⟨c, s', h, _⟩ := push_ok (guard P) hG s m ad tag
+      have hs' := (state_wf_preserved (guard P) hG s hs).2.2.1 _ _ _ _ _ _ h
+      have h1 : objPush (guard P) s m ad tag = .ok (c, s') := h
+      have h2 : objPush P s m ad tag = .ok (c, s') := ho ▸ h1
+      simp only [runPush, h1, h2, ih _ hs']
+
+/-- … and so does `runPull`, whatever is on the wire -/
+theorem guard_runPull (P : Prims) (hG : WF (guard P)) (ws : List Wire) (s : State) (hs : StateWF s) :
+    runPull (guard P) s ws = runPull P s ws := by
+  induction ws generalizing s with
+  | nil => rfl
+  | cons w ws ih =>
+    cases w with
+    | rekey =>
+      have hr := (state_wf_preserved (guard P) hG s hs).1
+      rw [guard_rekey P s hs] at hr
+      simp only [runPull, guard_rekey P s hs, ih _ hr]
+    | msg ct ad =>
+      have ho := guard_objPull P s hs ct ad
+      have hs' := (state_wf_preserved (guard P) hG s hs).2.2.2.2 ct ad
+      simp only [runPull]
+      rw [← ho]
+      split
+      · rename_i mt s' h
+        rw [h] at hs'
+        rw [ih _ hs']
+      · rfl
+
+/-- `pull ∘ push` for the driver's primitives: from every well-formed state, for every message, AD and
+tag byte, `push` succeeds with a ciphertext 17 bytes longer, ends in a well-formed state, and `pull`
+from the same state returns the message, the tag byte and **the very state `push` ended in** -/
+theorem pull_push_concrete (s : State) (hs : StateWF s) (m ad : Bytes) (tag : UInt8)
+    (buf : Bytes) (tagv : UInt8) (hb : m.length ≤ buf.length) :
+    ∃ c s', push streamPrims s (m.length + 17) m ad tag = .ok (c, s') ∧ c.length = m.length + 17 ∧
+      StateWF s' ∧
+      pull streamPrims s buf tagv c ad = ⟨.ok m.length, m ++ buf.drop m.length, tag, s'⟩ := by
+  obtain ⟨c, s', h, hl⟩ := push_ok (guard streamPrims) streamPrims_guard_wf s m ad tag
+  have hs' := (state_wf_preserved (guard streamPrims) streamPrims_guard_wf s hs).2.2.1 _ _ _ _ _ _ h
+  have hp := pull_push (guard streamPrims) streamPrims_guard_wf s m ad tag c s' h buf tagv hb
+  rw [guard_push streamPrims s hs] at h
+  rw [guard_pull streamPrims s hs] at hp
+  exact ⟨c, s', h, hl, hs', hp⟩
+
+/-- object layer -/
+theorem objPull_objPush_concrete (s : State) (hs : StateWF s) (m ad : Bytes) (tag : UInt8) :
+    ∃ c s', objPush streamPrims s m ad tag = .ok (c, s') ∧ objPull streamPrims s c ad = (.ok (m, tag), s') := by
+  obtain ⟨c, s', h, _⟩ := push_ok (guard streamPrims) streamPrims_guard_wf s m ad tag
+  have ho : objPush (guard streamPrims) s m ad tag = .ok (c, s') := h
+  have hp := objPull_objPush (guard streamPrims) streamPrims_guard_wf s m ad tag c s' ho
+  rw [guard_objPush streamPrims s hs] at ho
+  rw [guard_objPull streamPrims s hs] at hp
+  exact ⟨c, s', ho, hp⟩
+
+/-- histories of any length and shape stay in lockstep, for the driver's primitives, from every
+well-formed state -/
+theorem history_lockstep_concrete (ops : List Op) (s : State) (hs : StateWF s) :
+    runPull streamPrims s (runPush streamPrims s ops).2 = some ((runPush streamPrims s ops).1, sent ops) ∧
+    (runPush streamPrims s ops).2.length = ops.length := by
+  have h := history_lockstep (guard streamPrims) streamPrims_guard_wf ops s
+  rw [guard_runPush streamPrims streamPrims_guard_wf ops s hs,
+    guard_runPull streamPrims streamPrims_guard_wf _ s hs] at h
+  exact h
+
+/-- `init_push` / `init_pull` on a 32-byte key and a 24-byte header give a well-formed state -/
+theorem initState_wf_concrete (header key : Bytes) (hh : 24 ≤ header.length) (hk : 32 ≤ key.length) :
+    StateWF (initState streamPrims header key) :=
+  Proofs.Inst.streamPrims_initState_wf header key hh hk
+
+/-- … hence a whole session — both sides initialised from the same key and header, then any history —
+stays in lockstep with no hypothesis beyond the two array lengths -/
+theorem session_lockstep_concrete (header key : Bytes) (hh : 24 ≤ header.length) (hk : 32 ≤ key.length)
+    (ops : List Op) :
+    runPull streamPrims (initState streamPrims header key)
+        (runPush streamPrims (initState streamPrims header key) ops).2
+      = some ((runPush streamPrims (initState streamPrims header key) ops).1, sent ops) :=
+  (history_lockstep_concrete ops _ (initState_wf_concrete header key hh hk)).1
+
+end Concrete
 
 end DryocVerif.Properties.C03
